@@ -83,6 +83,9 @@ def check(cx):
     depends(cx, r6, 'C15', ('R15.2',), 'a nick change leaves no entry under the old nick (the teardown only clears the current one)',
             only=r'rekey\|(?!wallops-condition\|(?!stale))')
 
+    # the teardown needs the write lock: it gets it only if no other session keeps the lock while it waits for a peer's socket
+    depends(cx, r6, 'C05', ('R5.2',), 'no session holds the state lock while waiting for a socket (a teardown is never locked out)')
+
     # ---------------------------------------------------------------- R6.2
     r2 = cx.rule('R6.2', 'termination causes store the quit flag', floor=4, kind='must-exist')
     pi = cx.fn('process_internal')
